@@ -327,7 +327,7 @@ T8 = {
     "C07": "Signature.RecoverPublicKey, RecoverCompact, Signature.BruteforceRecoveryCode, Signature.Export, Signature.ExportCompact",
     "C10": "NonceRFC6979 (key-buffer assembly, HMAC prelude, generation loop) and the hmacsha256 object itself (newHMACSHA256, Write, initKey, ResetKey, Reset, Sum)",
     "C11": "schnorrSign, schnorrVerify, Signature.Verify, schnorr.Sign (retry loop)",
-    "C12": "ExtendedKey.ChildWithIL, Child, DeriveWithIL, Derive, FromSeed, FromBitcoinSeed, FromPublicKey, Public, pubKeyBytes, serializeCompressedEcdsa, isEven",
+    "C12": "ExtendedKey.ChildWithIL, Child, DeriveWithIL, Derive, FromSeed, FromBitcoinSeed, FromPublicKey, ToPublicSecp256k1, Public, pubKeyBytes, serializeCompressedEcdsa, isEven",
     "C13": "ExtendedKey.UnmarshalBinary, KeyVersion.IsPrivate/ToPublic",
     "C14": "GenerateSharedSecret, PrivateKey.ECDH",
     "C15": "KoblitzCurve.IsOnCurve/Add/Double/ScalarMult/ScalarBaseMult, bigAffineToJacobian, jacobianToBigAffine, moduloReduce, PublicKey.X/Y",
